@@ -31,7 +31,7 @@ RULE = (
     'adjacency inside unknown rules.'
 )
 ASSUMPTIONS = [
-    'identifiers consist of characters that need no escaping on output (the others are the listed finding F03-1, probed by a witness sub)',
+    'identifiers of the sheet generator consist of characters that need no escaping on output; names that need escaping (F03-1, repaired) are swept by the ident sub over every position a name can stand in',
     'string/URL content has no backslash character (listed finding F18-2)',
     'comment content is generated without backslash-hex sequences (cssutils decodes them; neither behaviour is asserted)',
     'repository sheets are parsed with a fetcher that serves empty sheets for every @import',
